@@ -6,15 +6,23 @@ CFS = ["CFS/zz_verif_cfs_keep_test.go", "CFS/zz_verif_cfs_sess_test.go"]
 def run(ctx):
     n = {"quick": 480, "thorough": 8000}[ctx.tier]
     ops = {"quick": 40, "thorough": 300}[ctx.tier]
+    nload = {"quick": 120, "thorough": 3000}[ctx.tier]
 
     def stages(ctx, mult, suffix, off):
         ctx.stage("c08" + suffix, "sdk/go/arvados", "arvados", CFS + ["C08/zz_verif_c08_test.go"], "TestVerifC08$",
                   n * mult, HDR.format(imports="lib.Path model.CFS_file model.CFS_tree model.CFS_inst model.C08_run"),
                   seed_offset=off, shard=60, env={"VERIF_STAGE": "c08" + suffix, "VERIF_OPS": str(ops)})
+        # histories that start from a loaded manifest (stored segments of arbitrary alignment from the start);
+        # shares the generator and evaluator of C09, without Keep failures
+        ctx.stage("c08load" + suffix, "sdk/go/arvados", "arvados",
+                  CFS + ["CFS/zz_verif_cfs_ctl_test.go", "C09/zz_verif_c09_test.go"], "TestVerifC09$",
+                  nload * mult, HDR.format(imports="lib.Path model.CFS_file model.CFS_tree model.CFS_inst model.C08_run model.CFS_bg model.CFS_run"),
+                  seed_offset=off + 5, shard=20,
+                  env={"VERIF_STAGE": "c08load" + suffix, "VERIF_OPS": str(ops), "VERIF_C09_KIND": "1", "VERIF_C09_NOFAIL": "1"})
     hdr = HDR.format(imports="lib.Path model.CFS_file model.CFS_tree model.CFS_inst model.C08_run")
     # first operation whose observation the plain filesystem does not predict: (index, expected, observed)
     expr = "first_diff 0 (run Spec (fs_init Spec) (c_ops c)) (c_obs c)"
-    return standard(ctx, "C08", ["model/C08_run.vo"], stages, explain={"c08": (hdr, expr)},
+    return standard(ctx, "C08", ["model/C08_run.vo", "model/CFS_run.vo"], stages, explain={"c08": (hdr, expr)},
                     rule="random operation histories (open with every flag combination, write, append, seek, read, truncate, "
                          "mkdir, rename, remove, stat, readdir; several handles; block limits 1,2,3,5,8,64; random explicit "
                          "flushes and saves in between) from the empty collection; distinct by hash of the case term; "
